@@ -58,7 +58,7 @@ class Job:
 
     def run(self):
         cfg = CFG.format(univ=self.univ, lvl=self.lvl, ren2="TRUE" if self.ren2 else "FALSE")
-        kw = dict(workers=2, heap="3g", timeout=1500, env={"JAVA_TOOL_OPTIONS": JAVA})
+        kw = dict(workers=4 if self.univ == "all" else 2, heap="3g", timeout=1500, env={"JAVA_TOOL_OPTIONS": JAVA})
         # the spec reads seeds.json in every configuration (JsonDeserialize is evaluated lazily, but
         # the file must exist for the "seeds" universe only)
         kw["extra_files"] = {"seeds.json": json.dumps(self.seeds if self.seeds is not None else [])}
@@ -1105,7 +1105,9 @@ def run(ctx, args):
     t0 = time.time()
     try:
         if quick:
-            jobs = [Job(u, 1, u in ("index", "cond")) for u in UNIVERSES]
+            # one JVM: the union of the eight universes at level 1 (renamings of mutants: thorough tier
+            # and the two small universes below)
+            jobs = [Job("all", 1, False), Job("index", 1, True, tag="index+renamed-mutants"), Job("cond", 1, True, tag="cond+renamed-mutants")]
         else:
             jobs = [Job(u, 2, True) for u in UNIVERSES]
             seeds = random_programs(ctx.seed, 32)
